@@ -655,24 +655,51 @@ fn check_by_distance(ctx: &mut Ctx, table: &mut KBucketsTable<NodeId, u64>, loca
                 ds.push(d);
             }
         }
+        // one list in ten is long: hundreds of distinct out-of-range values (and, less often, every in-range
+        // distance) with the occupied distances anywhere among them, also at the very end
+        if ctx.tape.choose(10) == 0 {
+            let junk = 200 + ctx.tape.choose(200) as u64;
+            let mut long: Vec<u64> = (0..junk).map(|i| 257 + i * (1 + ctx.tape.choose(3) as u64)).collect();
+            long.dedup();
+            if ctx.tape.choose(3) == 0 {
+                long.extend(1..=256u64);
+            }
+            let keep = std::mem::take(&mut ds);
+            for (k, d) in keep.into_iter().enumerate() {
+                if long.contains(&d) {
+                    continue;
+                }
+                match (k + ctx.tape.choose(3) as usize) % 3 {
+                    0 => long.insert(0, d),
+                    1 => long.push(d),
+                    _ => {
+                        let at = ctx.tape.choose(long.len() as u32 + 1) as usize;
+                        long.insert(at, d);
+                    }
+                }
+            }
+            ds = long;
+            ctx.count("by_distance_long_lists");
+        }
         let cap = 1 + ctx.tape.choose(20) as usize;
         let got: Vec<Id> = table.nodes_by_distances(&ds, cap).into_iter().map(|e| e.node.key.preimage().raw()).collect();
         let all: Vec<Id> = table.iter_ref().map(|e| e.node.key.preimage().raw()).filter(|id| ds.contains(&(log2(local, id) as u64))).collect();
+        let dshow = if ds.len() > 12 { format!("[{} distances, in range: {:?}]", ds.len(), ds.iter().enumerate().filter(|(_, d)| **d <= 256).map(|(i, d)| format!("{d}@{i}")).take(12).collect::<Vec<_>>()) } else { format!("{ds:?}") };
         ctx.count("by_distance_checked");
         let mut g2 = got.clone();
         g2.sort();
         g2.dedup();
         if g2.len() != got.len() {
-            ctx.fail("c08.by-distance-duplicate", format!("nodes_by_distances({ds:?},{cap}) returned a node twice"), &[]);
+            ctx.fail("c08.by-distance-duplicate", format!("nodes_by_distances({dshow},{cap}) returned a node twice"), &[]);
             return;
         }
         if let Some(bad) = got.iter().find(|id| !all.contains(id)) {
-            ctx.fail("c08.by-distance-foreign", format!("nodes_by_distances({ds:?},{cap}) returned ..{} at log2 distance {}", short(bad), log2(local, bad)), &[]);
+            ctx.fail("c08.by-distance-foreign", format!("nodes_by_distances({dshow},{cap}) returned ..{} at log2 distance {}", short(bad), log2(local, bad)), &[]);
             return;
         }
         let want = all.len().min(cap);
         if got.len() != want {
-            ctx.fail("c08.by-distance-count", format!("nodes_by_distances({ds:?},{cap}) returned {} nodes, {} are stored at those distances", got.len(), all.len()), &[]);
+            ctx.fail("c08.by-distance-count", format!("nodes_by_distances({dshow},{cap}) returned {} nodes, {} are stored at those distances", got.len(), all.len()), &[]);
             return;
         }
     }
